@@ -65,6 +65,7 @@ def _unary_work(payload):
     g = B.sg(n)
     fails = []
     cnt = 0
+    hist = core.History(to_case=lambda gs: {"kind": "unary", "n": n, "gens": M.gens_str(gs, n)})
     for i in idxs:
         for gens in M.presentations(g.gens(int(i), int(i) % (1 << n)), radius):
             cnt += 1
@@ -72,8 +73,11 @@ def _unary_work(payload):
                 msgs = judge_unary(gens, n)
             except Exception as ex:     # noqa: BLE001
                 msgs = ["raised %s: %s" % (type(ex).__name__, ex)]
-            for m in msgs[:2]:
-                fails.append((m, {"kind": "unary", "n": n, "gens": M.gens_str(gens, n)}))
+            if msgs:
+                cj = hist.attach({"kind": "unary", "n": n, "gens": M.gens_str(gens, n)})
+                for m in msgs[:2]:
+                    fails.append((m, cj))
+            hist.add(gens)
     return cnt, fails
 
 
@@ -82,6 +86,8 @@ def _pair_work(payload):
     g = B.sg(n)
     fails = []
     cnt = 0
+    mk = lambda ab: {"kind": "pair", "n": n, "a": M.gens_str(ab[0], n), "b": M.gens_str(ab[1], n), "both_orders": True}     # noqa: E731
+    hist = core.History(to_case=mk)
     for i, j in pairs:
         a = g.gens(int(i), int(i + j) % (1 << n))
         for b in M.presentations(g.gens(int(j), int(j) % (1 << n)), radius):
@@ -90,8 +96,11 @@ def _pair_work(payload):
                 msgs = judge_pair(a, b, n) + (judge_pair(b, a, n) if i != j else [])
             except Exception as ex:     # noqa: BLE001
                 msgs = ["raised %s: %s" % (type(ex).__name__, ex)]
-            for m in msgs[:1]:
-                fails.append((m, {"kind": "pair", "n": n, "a": M.gens_str(a, n), "b": M.gens_str(b, n)}))
+            if msgs:
+                cj = hist.attach(mk((a, b)))
+                for m in msgs[:1]:
+                    fails.append((m, cj))
+            hist.add((a, b))
     return cnt, fails
 
 
@@ -198,7 +207,8 @@ def replay_unary(body):
 
 def replay_pair(body):
     n = body["n"]
-    msgs = judge_pair(M.parse_gens(body["a"]), M.parse_gens(body["b"]), n)
+    a, b = M.parse_gens(body["a"]), M.parse_gens(body["b"])
+    msgs = judge_pair(a, b, n) + (judge_pair(b, a, n) if body.get("both_orders") else [])
     return "; ".join(msgs) if msgs else None
 
 
